@@ -541,9 +541,20 @@ def rule_units(ctx, R):
     for be in cfg.back_edges():
         loops_.setdefault(be[1], set()).update(cfg.natural_loop(be))
     if R.anchor(bool(opens) and bool(adds) and bool(uses), "units:fresh:anchors", "where a command is put into a block, where the next block is opened, and where the block index is recorded"):
+        from .p_c11 import _feeding_calls
+        LEN = {"std::vec::Vec::len"}
         for ub, what in uses:
             heads_ = [h for h, bl in loops_.items() if ub in bl]
-            stale = [o for o in opens if o != ub and any(reaches_without(cfg, cfg.succ[o], ub, cut_blocks=set(adds) | set(heads_)) for _ in (0,))]
+            # where the length was read: the Vec::len call(s) whose result flows into the recorded value
+            if what.startswith("command"):
+                ops_ = [b.blocks[ub]["term"]["args"][1]]
+            else:
+                ops_ = [st_["r"]["x"] for st_ in b.blocks[ub]["stmts"] if st_["k"] == "assign" and st_["p"]["proj"] and st_["r"]["k"] == "use" and any(isinstance(e, dict) and e.get("n") == "1" for e in st_["p"]["proj"])]
+            reads = set()
+            for o_ in ops_:
+                reads |= _feeding_calls(b, fb, vars_, o_, LEN)
+            reads = reads or {ub}
+            stale = [o for o in opens if any(reaches_without(cfg, cfg.succ[o], lb, cut_blocks=set(adds) | set(heads_)) for lb in reads)]
             R.check(not stale, "units:fresh:%s" % what.replace(" ", "_"), "the block index recorded by the %s is read after the command was put into its block and before the next block is opened" % what, b.blocks[ub]["term"]["span"]["at"] if b.blocks[ub]["term"].get("span") else None)
     # the restored selection
     for t in find("cur = "):
